@@ -116,6 +116,8 @@ def _stores(fi):
                     yield ('store', rootname, ast.unparse(x), x, rootname in fresh and isinstance(base, ast.Name), selfname)
         if isinstance(n, ast.Call) and isinstance(n.func, ast.Attribute) and n.func.attr in MUTATORS:
             base = n.func.value
+            if isinstance(base, ast.Name) and base.id == selfname and fi.cls is not None and fi.cls.find_method(n.func.attr) is not None:
+                continue        # self.update(...) where `update` is a method of the class: a call, judged by that method's own stores
             root = base
             while isinstance(root, (ast.Attribute, ast.Subscript)):
                 root = root.value
@@ -186,6 +188,54 @@ def _call_local_param(p, fi, param, _depth=0):
             continue
         return False
     return True
+
+
+def _ephemeral_class(p, ci, _memo={}):
+    """Are the instances of class ci accumulators that live inside one call: every construction site `K(...)` in the package
+    either uses the new object at once as a receiver (`K(data).digest()`), or binds it to a local that is used for nothing
+    but as a receiver of its own methods / attribute access, or is inside K's own methods (copy()); and K is not a base of
+    another class.  State kept on such an object cannot outlive the API call that made it."""
+    key = (id(p), ci.qual)
+    if key in _memo:
+        return _memo[key]
+    ok = True
+    sites = 0
+    if any(ci in c.mro()[1:] for c in p.classes.values()):
+        ok = False
+    for f2 in p.functions.values():
+        if not ok:
+            break
+        parents = {}
+        for n in ast.walk(f2.node):
+            for ch in ast.iter_child_nodes(n):
+                parents[ch] = n
+        for n in ast.walk(f2.node):
+            if not (isinstance(n, ast.Call) and isinstance(n.func, ast.Name) and n.func.id == ci.name):
+                continue
+            sites += 1
+            par = parents.get(n)
+            if isinstance(par, ast.Attribute) and par.value is n:
+                continue                                    # K(...).something
+            if f2.cls is ci:
+                continue                                    # inside the class itself (copy)
+            if isinstance(par, ast.Assign) and len(par.targets) == 1 and isinstance(par.targets[0], ast.Name) and par.value is n:
+                nm = par.targets[0].id
+                for u in ast.walk(f2.node):
+                    if isinstance(u, ast.Name) and u.id == nm and isinstance(u.ctx, ast.Load):
+                        pu = parents.get(u)
+                        if not (isinstance(pu, ast.Attribute) and pu.value is u):
+                            ok = False
+                continue
+            ok = False
+    # module-level constructions (a shared instance) are not ephemeral
+    for mi in p.modules.values():
+        for st in mi.tree.body:
+            if isinstance(st, (ast.FunctionDef, ast.ClassDef)):
+                continue
+            if any(isinstance(n, ast.Call) and isinstance(n.func, ast.Name) and n.func.id == ci.name for n in ast.walk(st)):
+                ok = False
+    _memo[key] = ok and sites > 0
+    return _memo[key]
 
 
 def _bookkeeping_closed(p, fi):
@@ -845,6 +895,12 @@ def run(ctx):
                     # the bookkeeping append; harmless wherever it sits because `children` is never read (C13.NOREAD)
                     cats['c'] += 1
                     ob.evaluations += 1
+                    continue
+                if rootname is not None and rootname == selfname and fi.cls is not None and _ephemeral_class(p, fi.cls):
+                    cats['h'] = cats.get('h', 0) + 1
+                    ob.evaluations += 1
+                    ob.note('%s %s: state of an accumulator object that is made and used up inside one call (every construction '
+                            'site of %s uses the new object only as a receiver)' % (key, text, fi.cls.name))
                     continue
                 if rootname is not None and rootname != selfname and rootname in fi.params and _call_local_param(p, fi, rootname):
                     cats['g'] = cats.get('g', 0) + 1
